@@ -580,8 +580,10 @@ class Check:
             "wall_s": round(wall, 2),
             "violations": len(self.failures) + len(self.broken),
         }
-        (VERIF / "evidence").mkdir(exist_ok=True)
-        (VERIF / "evidence" / f"{self.prop}.json").write_text(json.dumps(ev, indent=1, default=str))
+        # trials against a scratch worktree (VERIF_REPO: seeded regressions, mutation trials) must not overwrite the evidence of /repo
+        evdir = (SCRATCH / "trial_evidence") if os.environ.get("VERIF_REPO") else (VERIF / "evidence")
+        evdir.mkdir(parents=True, exist_ok=True)
+        (evdir / f"{self.prop}.json").write_text(json.dumps(ev, indent=1, default=str))
         for line in self.known_lines:
             print(line)
         print(
